@@ -52,10 +52,14 @@ fn subset(bits: &[u64], mask: u64) -> u64 {
 }
 
 fn gated_probes(rng: &mut Rng) -> Vec<ROp> {
-    c04::full_ops(rng)
+    let mut v: Vec<ROp> = c04::full_ops(rng)
         .into_iter()
         .filter(|o| o.gate_pf().is_some() || matches!(o, ROp::Fe(FeOp::SetVringEnable(..))))
-        .collect()
+        .collect();
+    // a gate must not depend on the argument values: both payload values of the ring switch
+    v.push(ROp::Fe(FeOp::SetVringEnable(0, true)));
+    v.push(ROp::Fe(FeOp::SetVringEnable(1, false)));
+    v
 }
 
 fn sym(op: ROp) -> Sym {
@@ -238,6 +242,8 @@ fn fe_probe_ops(rng: &mut Rng) -> Vec<FeOp> {
             v.push(op);
         }
     }
+    v.push(FeOp::SetVringEnable(0, true));
+    v.push(FeOp::SetVringEnable(1, false));
     v
 }
 
